@@ -667,6 +667,11 @@ fn one_case_s(rng: &mut Rng, sink: &mut Sink) {
                 Err(k) => {
                     sink.branch(&format!("rx:err:{:?}", k));
                     if over_stream { saw_over = true; if !was_complete { sink.branch(&format!("rx:over-limit-refused{}", tag)); } }
+                    // the other direction: data within the limit the endpoint has advertised must not be refused with a
+                    // flow-control error (that would be a limit silently lower than the advertised one)
+                    if k == ErrorKind::FlowControl && !over_stream && !was_complete {
+                        sink.monitor_fail(&format!("stream_within_limit_rejected{}", tag), &format!("stream {}: frame offset {} len {} ends at {} within the advertised stream limit {} but was refused with FLOW_CONTROL_ERROR", s, off, len, end, h.adv));
+                    }
                     sink.line(&op, &format!("err={:?}{}", k, frames_tok(&fr)));
                     return; // the connection is closed
                 }
@@ -723,8 +728,21 @@ fn one_case_s(rng: &mut Rng, sink: &mut Sink) {
             let cap = match rng.below(4) { 0 => rng.range(0, 3), 1 => 100_000, _ => rng.range(1, 300) } as usize;
             let mut dst = crate::registry::c11s::Lim(BytesMut::new(), cap);
             let Some(rd) = h.r.as_mut() else { continue };
-            let r = rd.poll_read(&mut cx(), &mut dst);
-            h.nread += dst.0.len() as u64;
+            // `poll_read` (AsyncRead) or `poll_next` (Stream): two copies of the MAX_STREAM_DATA code
+            let use_next = rng.chance(1, 3);
+            let (r, got): (Poll<Result<(), ()>>, usize) = if use_next {
+                match Pin::new(rd).poll_next(&mut cx()) {
+                    Poll::Pending => (Poll::Pending, 0),
+                    Poll::Ready(None) => (Poll::Ready(Ok(())), 0),
+                    Poll::Ready(Some(Ok(b))) => (Poll::Ready(Ok(())), b.len()),
+                    Poll::Ready(Some(Err(_))) => (Poll::Ready(Err(())), 0),
+                }
+            } else {
+                let r = rd.poll_read(&mut cx(), &mut dst);
+                (r.map(|x| x.map_err(|_| ())), dst.0.len())
+            };
+            sink.branch(if use_next { "read:poll_next" } else { "read:poll_read" });
+            h.nread += got as u64;
             if rng.chance(1, 3) { focus = Some((s, 3)); }
             let fr = e.rec.take();
             for f in &fr {
@@ -734,10 +752,10 @@ fn one_case_s(rng: &mut Rng, sink: &mut Sink) {
                     h.adv = h.adv.max(v);
                 }
             }
-            let op = format!("read {} {}", s, cap);
+            let op = if use_next { format!("next {}", s) } else { format!("read {} {}", s, cap) };
             match r {
                 Poll::Pending => sink.line(&op, &format!("pending{}", frames_tok(&fr))),
-                Poll::Ready(Ok(())) => sink.line(&op, &format!("n={}{}", dst.0.len(), frames_tok(&fr))),
+                Poll::Ready(Ok(())) => sink.line(&op, &format!("n={}{}", got, frames_tok(&fr))),
                 Poll::Ready(Err(_)) => sink.line(&op, &format!("err{}", frames_tok(&fr))),
             }
         }
@@ -820,6 +838,11 @@ fn new_ops(
                     }
                     h.reset = Some(fin_);
                     h.returned += sync as u128;
+                    let empty_beyond = h.got.iter().filter(|x| x.1 == x.0).map(|x| x.1).max().unwrap_or(0) > h.largest();
+                    if empty_beyond { sink.branch("reset:after-empty-frame-beyond-data"); }
+                    if h.returned < fin_ as u128 && !empty_beyond {
+                        late.push((format!("stream_undercharged:reset{}", tag), format!("stream {}: final size {} but only {} bytes handed to the connection-level controller (RFC 9000 §4.5: the final size accounts for all bytes of the stream)", s, fin_, h.returned)));
+                    }
                     if h.returned > fin_ as u128 {
                         late.push((format!("stream_overcharged:reset{}", tag), format!("stream {}: {} bytes handed to the connection-level controller for a stream whose final size is {}", s, h.returned, fin_)));
                     }
